@@ -228,6 +228,13 @@ Theorem C20_feature_get_reads_state : forall (T : Type) (st : @sem T) e words,
 Proof. exact (@feature_get_reads_state). Qed.
 Print Assumptions C20_feature_get_reads_state.
 
+(* an ERROR answer of a body whose semantics is modelled (list, get, cvcflags, the grid-only bias queries, share) leaves the whole
+   semantic state unchanged (dispatcher errors: C20_rejected_call_changes_nothing) *)
+Theorem C20_error_answer_changes_nothing : forall (T : Type) (st : @sem T) e words,
+  error_is_clean (e_name e) = true -> snd (body_sem st e words) = QErr -> fst (body_sem st e words) = st.
+Proof. exact (@error_answer_changes_nothing). Qed.
+Print Assumptions C20_error_answer_changes_nothing.
+
 (* ---- deferred effect of `cvcflags` (colvar::set_cvc_flags / update_cvc_flags) ---- *)
 (* a cvcflags call only stores its flags (refused unless there is one per component): no number, no other variable changes *)
 Theorem C20_cvcflags_only_stores : forall (T : Type) (st : @sem T) e words x cs cur,
